@@ -165,4 +165,13 @@ def exK3 : K where
   umask := 0
   cwd := []
 
+/-- descriptor 0 only: an append-mode description whose offset (7) is beyond the end of its 3-byte file -/
+def exK4 : K where
+  tree := [([], .dir 493), (["f"], .reg 420 [1, 2, 3])]
+  ofds := [{ path := ["f"], rd := false, wr := true, app := true, off := 7 }]
+  fds := fun n => if n = 0 then some ⟨0, false⟩ else none
+  limit := 8
+  umask := 0
+  cwd := []
+
 end YashModel.Kernel
